@@ -666,7 +666,7 @@ func (c *Checker) searchMode(target *ssa.BasicBlock, atoms []Atom, avoid bool) (
 	entry := c.Fn.Blocks[0]
 	start := &node{b: entry, val: valuation{}, eqc: map[string]string{}, nec: map[string]string{}}
 	respond := c.through != nil
-	if respond && entry == c.through {
+	if respond && entry == c.through && !c.avoidB[entry] {
 		start.arm = true
 	}
 	seen := map[pstate]bool{{entry, start.val.key(order)}: true}
